@@ -249,11 +249,11 @@ theorem final_bandGood (hf : Final H o nb s0 s hs src) (hu : ∀ e ∈ hs.flatte
 
 theorem final_listErrors (hf : Final H o nb s0 s hs src) (hu : ∀ e ∈ hs.flatten, entryUsable e = true) :
     listErrors s nb = [] := by
-  apply C08.stitch_silent
-  intro c hc
-  have : c = nb := by simpa [chain, final_complete hf] using hc
-  subst this
-  exact final_bandGood hf hu
+  -- the new version is complete: the listing never walks down
+  obtain ⟨h1, h2, h3⟩ := final_bandGood hf hu
+  simp only [listErrors, final_complete hf, if_true, List.append_nil, bandErrors, h1, h2, Option.toList,
+    List.nil_append, List.filterMap_eq_nil_iff]
+  exact h3
 
 theorem final_archWF (hf : Final H o nb s0 s hs src) (wf0 : ArchWF s0)
     (hu : ∀ e ∈ hs.flatten, entryUsable e = true)
